@@ -85,7 +85,12 @@ def gen(rng, tier, idx):
                     g.flush(t)
                 continue
             a = r.weighted([("emit", 50), ("jumbo", 15), ("flush", 8), ("mark", 15 if mine else 0), ("unordered", 5), ("attr", 7),
-                            ("model", 12 if uses[t] else 0)])
+                            ("model", 12 if uses[t] else 0), ("chdir", 1 if nth == 1 else 0)])
+            if a == "chdir":
+                # the application moves to another working directory in the middle of the run; where the trace goes was
+                # settled when the process was initialised
+                g.plan.op(t, "chdir", r.choice(["work", "..", "elsewhere", "."]))
+                continue
             if a == "model":
                 _, ev_in, ev_out = OTHER_MODELS[r.choice(uses[t])]
                 g.emit(t, ev_in, "now", 0)
